@@ -83,9 +83,8 @@ func c03Specs(tier string, seed int) []c03Spec {
 	out = append(out, c03Spec{Kind: "seq", Batch: []string{"C", "C", "Ca"}}, c03Spec{Kind: "seq", Batch: []string{"Ap", "A", "Ap"}}, c03Spec{Kind: "seq", Batch: []string{"C", "Ca", "C"}},
 		c03Spec{Kind: "seq", Batch: []string{"Cw", "Cw2"}}, c03Spec{Kind: "seq", Batch: []string{"Cw", "C", "Cw2"}}, c03Spec{Kind: "seq", Batch: []string{"Cw", "Cw2", "Cw"}},
 		c03Spec{Kind: "seq", Batch: []string{"C", "Cu"}}, c03Spec{Kind: "seq", Batch: []string{"Cu", "C"}}, c03Spec{Kind: "seq", Batch: []string{"Cu", "A", "C"}})
-	out = append(out, c03Spec{Kind: "e3", Batch: []string{"Cw", "Cw2"}, Conc: 2, Bound: -1, Days: 2})
-	if tier == "thorough" {
-		out = append(out, c03Spec{Kind: "e3", Batch: []string{"Cw", "C", "Cw2"}, Conc: 2, Bound: bound, Days: 3})
+	if tier == "thorough" { // (the reader reports every repaired day through the log channel: many scheduling points)
+		out = append(out, c03Spec{Kind: "e3", Batch: []string{"Cw", "Cw2"}, Conc: 2, Bound: 1, Days: 1}, c03Spec{Kind: "e3", Batch: []string{"Cw", "C", "Cw2"}, Conc: 2, Bound: 1, Days: 1})
 	}
 	out = append(out, c03Spec{Kind: "e3", Batch: []string{"Ao", "A2", "Bo"}, Conc: 2, Bound: bound, Days: 3}, c03Spec{Kind: "e3", Batch: []string{"Bo", "A"}, Conc: 2, Bound: -1, Days: 2}, c03Spec{Kind: "e3", Batch: []string{"Ag", "A"}, Conc: 2, Bound: -1, Days: 2}, c03Spec{Kind: "e3", Batch: []string{"As", "A"}, Conc: 2, Bound: -1, Days: 2})
 	out = append(out, c03Spec{Kind: "race", Conc: 4}, c03Spec{Kind: "race", Conc: 8})
@@ -170,6 +169,15 @@ func racePrepare() {
 
 func c03Run(raw json.RawMessage, c *mc.Ctx) {
 	sp := mc.Decode[c03Spec](raw)
+	if os.Getenv("C03_TIMING") != "" {
+		t0 := time.Now()
+		defer func() {
+			if f, err := os.OpenFile(os.Getenv("C03_TIMING"), os.O_APPEND|os.O_CREATE|os.O_WRONLY, 0o644); err == nil {
+				fmt.Fprintf(f, "TIMING %6.1fs %s %v conc=%d bound=%d shard=%d/%d\n", time.Since(t0).Seconds(), sp.Kind, sp.Batch, sp.Conc, sp.Bound, sp.Shard, sp.Shards)
+				f.Close()
+			}
+		}()
+	}
 	root := scratchRoot()
 	defer os.RemoveAll(root)
 	days := sp.Days
